@@ -393,3 +393,11 @@ Example tempo_guards_met :
   List.length (scans (search_query "qryn" false [] 20 1704888000000000000 1704891600000000000 0 0 false)) = 1%nat /\
   List.length (scans (trace_query true "0123456789abcdef0123456789abcdef" 1704888000000000000 1704891600000000000)) = 2%nat.
 Proof. exact tempo_examples. Qed.
+
+(* the hypotheses of every_scan_confined / every_scan_bounded_partial are met by queries with `| line_format` (LineFormatPlanner is
+   part of the planner model since builder b4-lf: it rewrites one column by an expression that reads no table) *)
+From Qryn Require proofs.LogqlTemplateProofs.
+Example line_format_queries_are_covered :
+  LogqlTemplateProofs.planned_and_processed LogqlTemplateProofs.lf_query LogqlTemplateProofs.lf_ctx = true /\
+  no_slf LogqlTemplateProofs.lf_query = true.
+Proof. split; [exact LogqlTemplateProofs.line_format_query_planned | reflexivity]. Qed.
